@@ -25,7 +25,7 @@ CONDITIONS = [
      for pz in (False, True) for ch in range(7)
 ] + shards("vtimezone", "c04.py", "h_vtimezone", {"f1": list(range(14)), "pytz_provider": [False, True]}, timeout=600, samples=10,
            what="malformed VTIMEZONE definitions (pairs of flags), optionally used by an event: result or ValueError", bound="14 flags, all pairs with the pinned first flag"
-) + [X("skeleton", "c04.py", "h_skeleton", timeout=600, samples=10, params={"m": m, "k0": k0},
+) + [X("skeleton", "c04.py", "h_skeleton", timeout=600 if m <= 3 else 2400, samples=10, params={"m": m, "k0": k0},
        what="BEGIN/END/VTIMEZONE-fragment line vectors: result or ValueError; result serialises and walks",
        bound="%d lines, first kind %d, 15 line kinds, single and multiple" % (m, k0), tiers=("quick", "thorough") if m <= 3 else ("thorough",))
      for m in (2, 3, 4) for k0 in (0, 1, 2, 3, 12)]
